@@ -5,6 +5,7 @@ import (
 	"strings"
 	"sync"
 
+	"google.golang.org/protobuf/proto"
 	"google.golang.org/protobuf/reflect/protoreflect"
 
 	"verif/harness/drv"
@@ -126,7 +127,8 @@ func C01(c *Ctx) error {
 						negZero = true
 					}
 				}
-				ks.dop = map[string]any{"op": "call_outcome", "verb": mi.verb, "ct": ct, "path_dot": dot, "required_zero": reqZero, "neg_zero_query": negZero}
+				ks.dop = map[string]any{"op": "call_outcome", "verb": mi.verb, "ct": ct, "path_dot": dot, "required_zero": reqZero, "neg_zero_query": negZero,
+					"resp_empty": proto.Size(respMsg) == 0}
 				// URL the model says the client writes
 				var tpl, pvals, qvals []any
 				for _, seg := range strings.Split(mi.m.Config.Path, "/")[1:] {
